@@ -290,6 +290,52 @@ def run_case(res: Result, spec, idx):
                           case={"idx": idx, "engine": engine})
 
 
+def pure_post_done(res: Result, spec, idx):
+    """The pure API: once a snapshot is done, further events change nothing - status, configuration,
+    context AND the recorded output stay what they were when the machine completed."""
+    import copy
+    case = make_case(spec, idx)
+    rng = rng_for(spec["seed"], ID, spec["chunk"], idx, "pure")
+    st8 = {"done_at": None, "ref": None, "bad": None, "post": 0}
+
+    def view(st):
+        snap_out = copy.deepcopy(st.output)
+        return (sorted(st.cfg), copy.deepcopy(st.ctx), st.status, snap_out)
+
+    def on_step(run, st):
+        if isinstance(st.extra, Exception):
+            return True
+        if st8["ref"] is None:
+            if st.status == "done":
+                st8["ref"] = view(st)
+                st8["done_at"] = st.i
+            return False
+        st8["post"] += 1
+        now = view(st)
+        if now != st8["ref"] and st8["bad"] is None:
+            fld = next(n for n, a, b in zip(("configuration", "context", "status", "output"), st8["ref"], now)
+                       if a != b)
+            st8["bad"] = (fld, st.i, st8["ref"], now)
+        return st8["post"] >= 3
+    run = drive.run_pure(case, 24, rng, on_step)
+    if st8["ref"] is None:
+        return
+    res.evaluations += 1
+    res.count("pure.done-reached")
+    res.count("pure.post-done-steps", st8["post"])
+    if st8["ref"][3] is not None:
+        res.count("pure.done-with-output")
+        res.hashes.add(h([case.plan, run["events"]]))
+    if st8["bad"] is not None:
+        fld, i, ref, now = st8["bad"]
+        res.violation("C10:pure-api-event-after-done-changed-%s" % fld,
+                      "pure transition(): an event applied to a done snapshot changed its %s (step %d): %r -> %r" % (
+                          fld, i, ref[("configuration", "context", "status", "output").index(fld)],
+                          now[("configuration", "context", "status", "output").index(fld)]),
+                      {"events": run["events"], "plan": case.plan, "done_at": st8["done_at"]},
+                      case={"idx": idx, "pure": True})
+
+
 def template_case(res: Result, spec, j):
     """Parallel state with N regions: every completion order, with un-complete/re-complete,
     region-level onDone and a history child.  Exact expectation: P's onDone fires once when the
@@ -309,6 +355,15 @@ def template_case(res: Result, spec, j):
         script.append("E%d" % i)
         if rng.random() < 0.3:
             script += ["U%d" % i, "E%d" % i]     # un-complete and re-complete before the end
+    # P's onDone may also STAY in P; P is then left by OUT and re-entered through its deep history
+    # child, which restores every region where it was - final children included: one more completion
+    stay = with_hist and rng.random() < 0.6
+    if stay:
+        for _ in range(rng.choice([1, 1, 2])):
+            script += ["OUT", "BACKH"]
+            if rng.random() < 0.4:
+                i = rng.randrange(n)
+                script += ["U%d" % i, "E%d" % i]
     fired = []
 
     def mk(name):
@@ -325,6 +380,10 @@ def template_case(res: Result, spec, j):
         regions["h"] = {"type": "history", "history": "deep"}
     P = {"type": "parallel", "states": regions, "onDone": {"target": "after", "actions": ["P_done"]}}
     states = {"P": P, "after": {"on": {"BACK": "P"}}}
+    if stay:
+        P["onDone"] = {"actions": ["P_done"]}
+        P["on"] = {"OUT": "away"}
+        states["away"] = {"on": {"BACKH": "P.h"}}
     cfg = {"id": "m", "initial": "P", "states": states}
     if nested:
         cfg = {"id": "m", "initial": "w", "states": {"w": {"initial": "P", "states": states}}}
@@ -355,8 +414,19 @@ def template_case(res: Result, spec, j):
         bad = None
         p_active = True
         for k, (e, got) in enumerate(log):
-            i = int(e[1:])
-            if not p_active:
+            if e == "OUT":
+                p_active = False
+            elif e == "BACKH":
+                p_active = True
+                for i in sorted(final):
+                    if region_ondone[i]:
+                        exp.append("r%d_done" % i)
+                if len(final) == n:
+                    exp.append("P_done")
+            i = int(e[1:]) if e[1:].isdigit() else -1
+            if e in ("OUT", "BACKH"):
+                pass
+            elif not p_active:
                 pass   # P was left by its onDone: region events no longer apply
             elif e[0] == "E" and i not in final:
                 final.add(i)
@@ -364,7 +434,7 @@ def template_case(res: Result, spec, j):
                     exp.append("r%d_done" % i)
                 if len(final) == n:
                     exp.append("P_done")
-                    p_active = False
+                    p_active = stay
             elif e[0] == "U":
                 final.discard(i)
             if sorted(got) != sorted(exp) and bad is None:
@@ -381,6 +451,8 @@ def template_case(res: Result, spec, j):
         res.count("template.regions-%d" % n)
         if with_hist:
             res.count("template.with-history-child")
+        if stay:
+            res.count("template.completed-configuration-restored-through-history")
         if any(region_ondone):
             res.count("template.with-region-onDone")
         res.hashes.add(h(["tmpl", n, with_hist, region_ondone, nested, script, engine]))
@@ -489,6 +561,8 @@ def run_chunk(spec):
     if only:
         if only.get("template"):
             template_case(res, spec, only["idx"])
+        elif only.get("pure"):
+            pure_post_done(res, spec, only["idx"])
         else:
             run_case(res, dict(spec, only_engine=only.get("engine")), only["idx"])
         return res.to_json()
@@ -497,6 +571,7 @@ def run_chunk(spec):
     for j in range(spec["n"]):
         wd.arm("idx=%d" % (base + j))
         run_case(res, spec, base + j)
+        pure_post_done(res, spec, base + j)
         for t in range(4):
             template_case(res, spec, (base + j) * 4 + t)
     k = 0
@@ -516,6 +591,7 @@ def quota(counters, tier):
               "top-level-completions", "post-done.sends", "status-watch.done-writes",
               "stop-after-done.checked", "template.runs.sync", "template.runs.async",
               "template.with-history-child", "template.with-region-onDone", "template.regions-4",
+              "template.completed-configuration-restored-through-history", "pure.post-done-steps", "pure.done-with-output",
               "queued-behind-completion.sync", "queued-behind-completion.async"):
         if counters.get(k, 0) == 0:
             out.append("monitor-never-reached:" + k)
